@@ -31,7 +31,7 @@ type mprog struct {
 }
 
 var mountPrefixes = []string{"/", "/api", "/api/", "/:v", "/a/b", "/Api", "/ab", "/abc", "/:Ver"}
-var mountPaths = []string{"/", "/a", "/ab", "/abc", "/x", "/:p", "/a/:p", "/*", "/abc/d", "/:p?", "/api", "/a/", "/:pId", "/a/:Key"}
+var mountPaths = []string{"/", "/a", "/ab", "/abc", "/x", "/:p", "/a/:p", "/*", "/abc/d", "/:p?", "/api", "/a/", "/:pId", "/a/:Key", `/a\:b`, `/x\*`, `/ab\+/:p`}
 
 type mgen struct {
 	r      *gen.Rand
@@ -452,7 +452,7 @@ func runMount(e *ev.Env) {
 			p.Root = append(p.Root, m)
 		}
 		nreq := e.N(40, 60)
-		segs := []string{"", "/a", "/ab", "/abc", "/x", "/api", "/Api", "/a/b", "/v1", "/abc/d", "/"}
+		segs := []string{"", "/a", "/ab", "/abc", "/x", "/api", "/Api", "/a/b", "/v1", "/abc/d", "/", "/a:b", "/x*", "/ab+"}
 		var reqs [][2]string
 		for i := 0; i < nreq; i++ {
 			var sb strings.Builder
